@@ -120,4 +120,7 @@ theorem refSendPushPromise_ext (s : Streams) (p : Nat) (v : Bool) (f : List Hpac
   unfold Streams.refSendPushPromise; ext_auto
   all_goals (first | rfl | exact reserveLocal_state_same (by assumption) | skip)
 
+theorem refPollPushed_ext (s : Streams) (id : Nat) (tag : String) : Ext s (s.refPollPushed id tag).1 := by
+  unfold Streams.refPollPushed; ext_auto
+
 end H2V.Lemmas.ConnRecvP
